@@ -41,6 +41,8 @@ func propC03(p *Prog, r *Report) {
 	c03Batch(p, r, "C03.a")
 	c03Guard(p, r)
 	c03AfterConflict(p, r)
+	r.Rule("C03.g", "the commit stamp reaches what is published: inside the RunTransaction literal the stamp is stored into elements of the very slice that is written to Badger and then published in memory (an assignment to a loop copy is reported)")
+	c03StampReachesPublished(p, r, "C03.g")
 }
 
 // litParamCtx returns the context parameter object of a function literal.
@@ -284,6 +286,10 @@ func c03Guard(p *Prog, r *Report) {
 	})
 	cons := kUpdateTx + "#conflict-guard"
 	if ifs == nil {
+		// the guard may have been extracted into a package-local helper: evaluate the helper as a whole
+		if c03GuardInHelper(p, r, fi, cons) {
+			return
+		}
 		r.Viol("C03.c", cons, p.pos(fi.Decl), "UpdateTx never produces ErrTxSerialization: a write-write conflict commits silently")
 		return
 	}
@@ -408,6 +414,22 @@ func c03AfterConflict(p *Prog, r *Report) {
 			conflicts = append(conflicts, callSite{Node: n.ID, ErrVar: objOf(info, as.Lhs[0]), Kind: "assigned"})
 		}
 	}
+	// a conflict verdict obtained from a helper call
+	for call := range conflictHelpers(p, fi) {
+		for _, n := range f.Nodes {
+			if n.Ast != nil && n.Ast.Pos() <= call.Pos() && call.End() <= n.Ast.End() {
+				bs := f.bindOf(n, call)
+				if bs.Kind == "assigned" {
+					conflicts = append(conflicts, bs)
+				}
+			}
+		}
+	}
+	for _, c := range conflicts {
+		res := f.errorConsumed(fi, c.Node, c.ErrVar, flowOpts{Class: true})
+		r.Check(res.OK, "C03.d", kUpdateTx+"#conflict-verdict-kept", p.pos(f.Nodes[c.Node].Ast), "a conflict verdict is never overwritten or dropped before it is returned",
+			"the conflict verdict of one key can be lost ("+res.Detail+" at "+res.Pos+"): a commit that must fail with ErrTxSerialization succeeds when a later key does not conflict")
+	}
 	runs := f.CallSites(kRepoRunTx)
 	pubs := f.CallNodes(kStoreToTx)
 	var targets []int
@@ -415,7 +437,28 @@ func c03AfterConflict(p *Prog, r *Report) {
 		targets = append(targets, s.Node)
 	}
 	targets = append(targets, pubs...)
+	// a verdict held in a local and then transferred (err = cErr) is gated through the variable it was transferred to
+	var gateSites []callSite
 	for _, c := range conflicts {
+		st := f.ErrStatesFrom(c.Node, c.ErrVar)
+		transferred := false
+		for _, n := range f.Nodes {
+			as, ok := n.Ast.(*ast.AssignStmt)
+			if !ok || len(as.Lhs) != 1 || len(as.Rhs) != 1 || len(st.at(n.ID)) == 0 || n.ID == c.Node {
+				continue
+			}
+			if keeps, mentions, _ := keepsClass(info, as.Rhs[0], c.ErrVar); keeps && mentions {
+				if w := objOf(info, as.Lhs[0]); w != nil && w != c.ErrVar {
+					gateSites = append(gateSites, callSite{Node: n.ID, ErrVar: w, Kind: "assigned"})
+					transferred = true
+				}
+			}
+		}
+		if !transferred {
+			gateSites = append(gateSites, c)
+		}
+	}
+	for _, c := range gateSites {
 		ok, t, st := f.GatedBy(c, targets)
 		pos := p.pos(f.Nodes[c.Node].Ast)
 		via := ""
@@ -512,4 +555,111 @@ func isNamedResult(fi *FuncInfo, o types.Object) bool {
 		}
 	}
 	return false
+}
+
+// conflictHelpers: package-local functions called by UpdateTx that can produce ErrTxSerialization directly.
+func conflictHelpers(p *Prog, fi *FuncInfo) map[*ast.CallExpr]*FuncInfo {
+	res := map[*ast.CallExpr]*FuncInfo{}
+	ast.Inspect(fi.Decl.Body, func(x ast.Node) bool {
+		c, ok := x.(*ast.CallExpr)
+		if !ok {
+			return true
+		}
+		for _, k := range p.calleeKeys(fi.Pkg, c) {
+			h := p.Funcs[k]
+			if h == nil || h.Pkg != fi.Pkg || h == fi || h.Decl.Body == nil {
+				continue
+			}
+			direct := false
+			ast.Inspect(h.Decl.Body, func(y ast.Node) bool {
+				if e, ok := y.(ast.Expr); ok && exprObjKey(h.Pkg.TypesInfo, e) == "fs_db.ErrTxSerialization" {
+					direct = true
+				}
+				return true
+			})
+			if direct {
+				res[c] = h
+			}
+		}
+		return true
+	})
+	return res
+}
+
+// c03GuardInHelper evaluates a conflict predicate that lives in a helper function (seeded C03-A / C07-B shape).
+func c03GuardInHelper(p *Prog, r *Report, fi *FuncInfo, cons string) bool {
+	helpers := conflictHelpers(p, fi)
+	if len(helpers) == 0 {
+		return false
+	}
+	dest := c03DestStore(p, fi)
+	for call, h := range helpers {
+		info := h.Pkg.TypesInfo
+		f := p.FlatOf(h)
+		var filterObj types.Object
+		destParam := -1
+		i := 0
+		var params []types.Object
+		for _, fld := range h.Decl.Type.Params.List {
+			for _, nm := range fld.Names {
+				o := info.Defs[nm]
+				params = append(params, o)
+				if o != nil && strings.HasSuffix(o.Type().String(), "model.FileFilter") {
+					filterObj = o
+				}
+				if i < len(call.Args) && dest != nil && objOf(fi.Pkg.TypesInfo, call.Args[i]) == dest {
+					destParam = i
+				}
+				i++
+			}
+		}
+		good := true
+		detail := ""
+		for _, snap := range []int64{-1, 5} {
+			for _, latest := range []int64{0, 3, 7} {
+				env := &Env{P: p, Pkg: h.Pkg, Vars: map[types.Object]*Val{}}
+				fv := &Val{Fields: map[string]*Val{"TxId": {Nil: true}, "BeforeSeq": {Nil: true}}}
+				if snap >= 0 {
+					fv.Fields["BeforeSeq"] = &Val{Ptr: intVal(snap)}
+				}
+				if filterObj != nil {
+					env.Vars[filterObj] = fv
+				}
+				for _, o := range params {
+					if o != nil && o != filterObj {
+						if _, isSeq := env.Vars[o]; !isSeq && strings.HasSuffix(o.Type().String(), "sequence.Seq") {
+							if snap >= 0 {
+								env.Vars[o] = &Val{Ptr: intVal(snap)}
+							} else {
+								env.Vars[o] = &Val{Nil: true}
+							}
+						}
+					}
+				}
+				env.Hook = func(env *Env, e ast.Expr) (*Val, bool) {
+					if c, ok := e.(*ast.CallExpr); ok && env.Pkg == h.Pkg && p.callIs(h.Pkg, c, kFileLatest) {
+						return &Val{Fields: map[string]*Val{"Seq": intVal(latest)}}, true
+					}
+					return nil, false
+				}
+				_, exit, err := f.WalkPath(env)
+				if err != nil {
+					r.Undecided("C03.c", cons, p.pos(h.Decl), "conflict helper "+h.Key+" not evaluable: "+err.Error())
+					return true
+				}
+				got := false
+				if rs := f.returnStmt(exit); rs != nil && len(rs.Results) > 0 {
+					got = strings.Contains(valueKey(info, rs.Results[len(rs.Results)-1]), "fs_db.ErrTxSerialization")
+				}
+				want := snap >= 0 && latest > snap
+				if got != want {
+					good = false
+					detail = fmt.Sprintf("snapshot point %d, committed latest %d: conflict=%v, required %v", snap, latest, got, want)
+				}
+			}
+		}
+		r.Check(good, "C03.c", cons, p.pos(h.Decl), "conflict helper "+h.Key+": conflict iff snapshot point set and committed latest is newer", detail)
+		r.Check(destParam >= 0, "C03.c", cons+"/destination", p.pos(call), "the helper is given the destination store", "the conflict helper is not given the destination store")
+	}
+	return true
 }
